@@ -147,6 +147,21 @@ theorem C09_semantic_err (s : List Rune) (es : List String) (h : accept s = .sem
 /-- The empty pattern is rejected (and does not crash). -/
 theorem C09_empty_rejected : accept [] = .invalid := rfl
 
+/-- **A count that does not fit into a Go `int` is not a number** (the repair d601844 of the silent wrap-around): whatever
+    the number mapper returns is at most 2^63 - 1; longer digit strings make it fail, and with it the pattern. -/
+theorem C09_counts_fit (T : ClassTable) (v : Val) (n : Nat) (h : app T "toNum" v = some (.int n)) : n ≤ 9223372036854775807 := by
+  simp only [app] at h
+  split at h
+  · split at h
+    · cases h
+    · rename_i hle
+      simp only [Option.some.injEq, Val.int.injEq] at h
+      subst h
+      omega
+  · cases h
+example : (app [] "toNum" (.list [.int 9, .int 2, .int 2, .int 3, .int 3, .int 7, .int 2, .int 0, .int 3, .int 6, .int 8, .int 5, .int 4, .int 7, .int 7, .int 5, .int 8, .int 0, .int 7])).isSome = true := by decide +kernel
+example : (app [] "toNum" (.list [.int 9, .int 2, .int 2, .int 3, .int 3, .int 7, .int 2, .int 0, .int 3, .int 6, .int 8, .int 5, .int 4, .int 7, .int 7, .int 5, .int 8, .int 0, .int 8])).isNone = true := by decide +kernel
+
 /-- Non-vacuity: `a|b*` and `[a-c]{1,2}` are accepted; `a)` (unparsed suffix), `[c-a]` and `a{2,1}` are not. -/
 example : (match accept ("a|b*".toList.map Char.toNat) with | .ok _ => true | _ => false) = true := by decide +kernel
 example : accept ("a)".toList.map Char.toNat) = .invalid := by decide +kernel
